@@ -645,17 +645,24 @@ def check_run(rec, tpl, rows, prob, refs, bname, lb, ub, bkind, sidx, variant, m
             if bv.get(prob.names[k]) != want:
                 viol('get-beta-values-after-estimation', f'get_beta_values()[{prob.names[k]}] = {bv.get(prob.names[k])!r}, '
                      f'expected {want!r}', expected=want, observed=bv.get(prob.names[k]))
-    # (9) history [estimate(), estimate()]: the second run starts from the written-back estimates
-    if mode == 'estimate' and not light and sidx == 0 and variant in ALGOS:
+    # (9) history [estimate(), estimate()] on the same object.  The statement speaks about the formulas only (checked
+    # above); whether the SAME object restarts from the estimates is observed and counted, not demanded.
+    if mode == 'estimate' and not light and sidx == 0 and variant == 'simple_bounds':
         try:
             r2 = b.estimate()
             il2 = r2.data.initLogLike
-            if il2 is None or not _rel(float(il2), ll_rep, scale) <= 1e-9:
-                viol('second-estimate-does-not-start-from-the-estimates', f'a second estimate() reports initLogLike {il2!r}; the '
-                     f'first returned logLike {ll_rep!r}', expected=ll_rep, observed=il2)
-            if float(r2.data.logLike) < ll_rep - 1e-9 * scale:
-                viol('second-estimate-below-first', f'second estimate() logLike {float(r2.data.logLike)!r} < first {ll_rep!r}',
-                     expected=f'>= {ll_rep}', observed=float(r2.data.logLike))
+            if il2 is not None and _rel(float(il2), ll_rep, scale) <= 1e-9:
+                rec.count('second_estimate_on_same_object_starts_from_the_estimates')
+            else:
+                rec.count('second_estimate_on_same_object_restarts_from_the_original_start(not demanded)')
+            x2 = [None] * nf
+            for pos, v in zip(perm, [float(v) for v in r2.data.betaValues]):
+                x2[pos] = v
+            ref2 = prob.eval(x2, order=0)[0]
+            if not _rel(float(r2.data.logLike), ref2, max(1.0, abs(ref2))) <= 1e-9:
+                viol('second-estimate-loglike-not-the-likelihood-at-estimates', f'second estimate() reports logLike '
+                     f'{float(r2.data.logLike)!r} at {x2}, the likelihood there is {ref2!r}', expected=ref2,
+                     observed=float(r2.data.logLike))
             rec.count('second_estimates')
         except Exception as e:  # noqa: BLE001
             if isinstance(e, RuntimeError):
